@@ -306,6 +306,10 @@ func spanFamilies() [][]spanCase {
 			for _, fl := range []trace.TraceFlags{0, trace.FlagsSampled} {
 				psid, remote, fl := psid, remote, fl
 				mk("parent", "", func(s *tracetest.SpanStub) { s.Parent = sctx(s.SpanContext.TraceID(), psid, fl, "p=1", remote) })
+				// the parent's span id is what is exported, whatever trace id the parent context holds
+				// (the SDK itself keeps a parent with a span id and no trace id when it has to mint a trace id)
+				mk("parent", "parent context without a trace id", func(s *tracetest.SpanStub) { s.Parent = sctx(trace.TraceID{}, psid, fl, "", remote) })
+				mk("parent", "parent context with another trace id", func(s *tracetest.SpanStub) { s.Parent = sctx(trace.TraceID{3: 7}, psid, fl, "", remote) })
 			}
 		}
 	}
